@@ -41,7 +41,7 @@ CHECKS = {
          'All histories over a small alphabet (budgets 0-5) and random binary64 histories with ties are run through the real loop (tagged stubs) and compared bit-exactly with the model.',
          'Trusted: Coq kernel + vm_compute (PrimFloat primitives as the model of Python float comparison/multiplication), scripted stubs. NaN scores excluded as the property states.'),
  'C09': ('DESIGN.md §4 C09',
-         'Coq proofs: stack-machine = structural path table (induction with a stack measure); softmax of log-sigmoid sums = gate products summing to 1, T->0 bound (Reals); rational truncation lemmas; interval-certified weight correspondence + vm_compute relation on observed truncations',
+         'Coq proofs: stack-machine = structural path table (induction with a stack measure); softmax of log-sigmoid sums = gate products summing to 1, the weight computation exactly as coded (left fold, clamp at -50, stable shift, tiny-clamped normaliser) equals the gate products whenever no leaf is below e^-50 and is within an explicit bound otherwise, T->0 bound (Reals); rational truncation lemmas + the soft-routing op sequence re-translated from the source each run and proved equal to the models (softops) + interval-certified weight correspondence + vm_compute relation on observed truncations',
          'Theorems for every tree: cache builder = preorder/left-to-right table; weights = product of gate sigmoids, positive, sum to one; renormalised masked weights lie on the simplex so outputs are in the convex hull; active set is a top-weighted prefix, smallest reaching keep, within the cap; hard leaf weight >= 1 - D exp(-margin/T). '
          'One-hot probe leaves expose the weight matrix of the real code; weights are certified against the real-valued model by `interval`, truncations by a rational relation in Coq, leaf invocation sets and T->0 by oracle.',
          'Trusted: Coq kernel, vm_compute, Interval tactic, real-number axioms of the standard library, probe leaves. float32 tolerance 5e-6+2e-5 w; cut-off ties within 4e-6 accepted either way.'),
@@ -90,22 +90,22 @@ CHECKS = {
          'partial: thin model; equality of results is observed. Trusted: Coq kernel + vm_compute, recording subclass.'),
 
  'C05': ('DESIGN.md §4 C05',
-         'Coq proofs (Reals, lists of any dimension) that each kernel\'s tensor-operation sequence equals the documented closed form + the op sequences re-translated from the source each run by symbolic execution of a generic entry and proved equal to the model (kernelops) + interval-certified correspondence of real kernel-matrix entries + mpmath closed-form oracle',
-         'Theorems for every dimension, transform (none/diagonal/full), exponent, bandwidth: op sequence = exp(-||T(x-z)||_p^q / L^q) (L2, Lpq, product) and ((1-c) mean exp(..)+c)^power (sum-power); the memory-light expansion is the quadratic form of the difference exactly for symmetric M (counterexample without symmetry); symmetry, unit diagonal, range (0,1]. '
-         'Entries of Kernel.get_kernel_matrix (float64/float32, all CPU kernels, every boundary (p,q) combination, bandwidths 1e-2..1e3, coincident/far/high-dimensional points) are certified against the op-sequence model by `interval` and compared with mpmath closed forms; aliases exhaustively; PSD tested numerically.',
-         'partial: the PSD clause (Schoenberg) is stated, not proved. Trusted: Coq kernel, Interval tactic, real-number axioms, mpmath; tolerances 1e-9 (float64), 2e-5 (float32), (sqrt u)^q scale for the light kernel.'),
+         'Coq proofs (Reals, lists of any dimension) that each kernel\'s tensor-operation sequence equals the documented closed form; positive semi-definiteness PROVED for all inputs by explicit feature maps for the product / Lpq(p=q=1) / sum-power kernels with exponent 1 and for the Gaussian case of the L2 kernel, and certified per Gram matrix otherwise by an exact LDL^T certificate checker with a soundness theorem + the op sequences re-translated from the source each run by symbolic execution of a generic entry and proved equal to the model (kernelops) + interval-certified correspondence of real kernel-matrix entries + mpmath closed-form oracle',
+         'Theorems for every dimension, transform (none/diagonal/full), exponent, bandwidth: op sequence = exp(-||T(x-z)||_p^q / L^q) (L2, Lpq, product) and ((1-c) mean exp(..)+c)^power (sum-power); the memory-light expansion is the quadratic form of the difference exactly for symmetric M (counterexample without symmetry); symmetry, unit diagonal, range (0,1]; for ANY number of points and coefficients the quadratic form of the product kernel with exponent 1 (also Lpq p=q=1, sum-power q=1, L2 q=2) is non-negative (telescoping 1-D feature map on sorted coordinates, tensor products, Schur product, limit of Taylor partial sums); an accepted integer certificate D*K = sum n_i W_i W_i^T implies v^T K v >= -tol |v|^2 for every real v. '
+         'Entries of Kernel.get_kernel_matrix (float64/float32, all CPU kernels, every boundary (p,q) combination, bandwidths 1e-2..1e3, coincident/far/high-dimensional points) are certified against the op-sequence model by `interval` and compared with mpmath closed forms; aliases exhaustively; Gram matrices of 5-8 points (random/clustered/duplicated, all kernels with 0<q<=p<=2) get an exact LDL^T certificate that is re-checked by vm_compute inside Coq.',
+         'partial: the general Schoenberg statement (0 < q <= p <= 2, e.g. the L2 kernel with exponent 1) is not proved — those Gram matrices are certified per instance (tolerance 1e-6 + grid 2^-41 n). Trusted: Coq kernel, vm_compute, Interval tactic, real-number axioms, mpmath, the exact-rational LDL^T in the harness (its output is re-checked, so only completeness depends on it); tolerances 1e-9 (float64), 2e-5 (float32), (sqrt u)^q scale for the light kernel.'),
 
  'C04': ('DESIGN.md §4 C04',
-         'Coq/Coquelicot proof (is_derive) that the closed-form L2 gradient formula is the derivative of the predictor for any number of centers and any dimension + interval-certified correspondence of the op-sequence model + high-precision (mpmath) derivative oracle for all kernels',
-         'Theorems: radial profile derivative (auto_derive); the predictor along a coordinate line is a sum of radial profiles along a line in transformed space (any transform); the masked closed-form L2 gradient followed by the transform is that derivative wherever the query is at distance >= eps from all centers and the transform is used symmetrically (proved for identity/diagonal; = symmetry of the matrix for full); a coincident center contributes exactly zero. '
-         'Every entry of Kernel.get_function_grads (all CPU kernels, 1-4 outputs, 1-3 query points, all transforms, coincident points) is compared with the 60-digit derivative of the documented closed form; L2/light-L2 entries are certified against the Coq model by `interval`; RFM.get_grads vs finite differences; xRFM.get_grads vs the leaf reached.',
-         'partial: for product / Lpq / sum-power kernels the derivative is computed by torch.func.jacrev (contract, checked numerically only — this is how the multi-output cdist/vmap defect was found). Trusted: Coq kernel, Coquelicot, Interval, real-number axioms, mpmath.'),
+         'Coq/Coquelicot proofs (is_derive) that (i) the closed-form L2 gradient formula and (ii) the model of what jacrev + the transform wrapper return for the product / Lpq / sum-power kernels are the derivative of the documented predictor, for any number of centers and any dimension + the gradient op sequences and the closures handed to jacrev re-translated from the source each run and proved equal to the models (gradops) + interval-certified correspondence of returned entries with the Coq models + high-precision (mpmath) derivative oracle for all kernels',
+         'Theorems: radial profile derivative; the predictor along a coordinate line is a sum of profiles along a line in transformed space (any transform, all five kernels); the masked closed-form L2 gradient followed by the transform is that derivative wherever the query is at distance >= eps from all centers and the transform is used symmetrically (proved for identity/diagonal; = symmetry of the matrix for full); the same for the product / Lpq / sum-power kernels at points in general position (for exponent > 1 everywhere; at exponent 1 non-differentiability at a vanishing coordinate is proved); a coincident / masked center contributes exactly zero; the closures differentiated by jacrev equal the documented kernels wherever the eps-mask is open. '
+         'Every entry of Kernel.get_function_grads (all CPU kernels, 1-4 outputs, 1-3 query points, all transforms, coincident points) is compared with the 60-digit derivative of the documented closed form; entries of all five kernels are certified against the Coq models by `interval`; RFM.get_grads vs finite differences; xRFM.get_grads vs the leaf reached.',
+         'partial: that torch.func.jacrev returns the partial derivatives of the closure it is given is PyTorch\'s contract (checked numerically per instance — this is how the multi-output cdist/vmap defect was found). Trusted: Coq kernel, Coquelicot, Interval, real-number axioms, mpmath, the gradops translator.'),
 
  'C14': ('DESIGN.md §4 C14',
          'Coq proofs over Q (entrywise matrix algebra on lists) of the AGOP accumulation model + refutation witness for centred accumulation + vm_compute of the model on the gradients the implementation itself returns',
          'Theorems for every number of points/outputs/dimension and every batch size: the accumulated matrix is the sum of gradient outer products, independent of the batch size (no centring), symmetric, positive semi-definite (x^T M x = sum (g.x)^2), diagonal mode = its diagonal, normalised entries <= 1. With centring ON the statement is refuted in the model (witness) and on the implementation (known finding). '
          'fit_M(inplace=False) of small fitted leaves (all CPU kernels, diag/full, 1-3 outputs, batch sizes 1..n+5) is compared with the Q model evaluated in Coq on the implementation\'s own get_function_grads output; root squares back; agop_best_model is the AGOP of the returned predictor.',
-         'partial: matrix root (SVD) is a contract (checked numerically), gradient values are C04; the 1e-8 diagonal ridge that the matrix-power routine adds in place is part of the model. KNOWN FINDING: center_grads=True is batch-size dependent.'),
+         'partial: matrix root (SVD) is a contract (checked numerically), gradient values are C04; the 1e-8 diagonal ridge that the matrix-power routine adds in place is accepted with or without (the property does not ask for it); get_agop / get_agop_diag reductions are re-translated from the source each run (gradops). KNOWN FINDING: center_grads=True is batch-size dependent.'),
 
  'C19': ('DESIGN.md §4 C19',
          'Coq proofs (Reals) of scale invariance of the Laplace-family closed forms, homogeneity of the lower median and of the closed-form L2 gradient, and the composition theorem (a whole fit commutes with rescaling when its components are homogeneous; solver arbitrary) + vm_compute order-statistic check of the stored bandwidth + rescaling differential',
